@@ -308,6 +308,34 @@ pub fn run_c11(ctx: &mut Ctx) {
             }
         }
     }
+    // values handed from one API to another: the result of maximize / minimize on every CLDR key (subtags that come out
+    // of the compiled tables) matched against the parsed CLDR value, the parsed key and itself
+    #[cfg(feature = "likely")]
+    if let Ok(lk) = crate::likely::Likely::load() {
+        for (i, (k, v)) in lk.entries.iter().enumerate() {
+            if i % ctx.nshards != ctx.shard {
+                continue;
+            }
+            let (Ok(key), Ok(val)) = (k.parse::<Locale>(), v.parse::<Locale>()) else { continue };
+            let mut mx = key.clone();
+            let mut mn = val.clone();
+            if guard(|| {
+                mx.id.maximize();
+                mn.id.minimize();
+            })
+            .is_err()
+            {
+                ctx.count("setup: maximize/minimize panicked (pair skipped)");
+                continue;
+            }
+            mon::begin_case(k.as_bytes());
+            ctx.count_n("likely-subtags results as operands", 4);
+            judge_pair(ctx, &mx, &val);
+            judge_pair(ctx, &key, &mx);
+            judge_pair(ctx, &mn, &key);
+            judge_pair(ctx, &mx, &mn);
+        }
+    }
     ctx.extra.insert("product_domain".into(), json!({"identifiers": ids.len(), "pairs": ids.len() * ids.len(), "flag_pairs": 4, "extension_combinations_per_pair": 4}));
     mon::idle();
     // random pairs: b is a perturbation of a (fields dropped / changed) so that all outcomes occur
